@@ -3,7 +3,8 @@
 // with the cancel flag injected at the k-th IsCancelled check (k = 0: never).
 //
 // stdin, one case per line:
-//   CASE <id> <k> <final> O <n> <opdef>*n D <m> <def>*m
+//   CASE <id> <k> <final> O <n> <opdef>*n D <m> <def>*m [E <e> <spec>*e]
+//     spec  : j  evaluate def j on its own (no context) BEFORE the observed evaluation;  jc  the same through a copy of the handle
 //     opdef : cube:sx:sy:sz:tx:ty:tz | sphere:r:seg:tx:ty:tz | cyl:h:r:seg:tx:ty:tz
 //             | tet:s:tx:ty:tz | smoothtet:s | smoothsphere:r:seg
 //     def   : prefix expression without blanks over  $i (operand i), #j (earlier def j,
@@ -164,6 +165,8 @@ int main() {
     std::vector<std::string> opTxt, defTxt;
     is >> mark >> n; for (size_t i = 0; i < n; ++i) { std::string s; is >> s; opTxt.push_back(s); }
     is >> mark >> n; for (size_t i = 0; i < n; ++i) { std::string s; is >> s; defTxt.push_back(s); }
+    std::vector<std::string> preTxt;
+    if (is >> mark >> n) for (size_t i = 0; i < n; ++i) { std::string s; is >> s; preTxt.push_back(s); }
 #ifndef VERIF_HAS_HOOK
     printf("R %s %ld nohook=1\n", id.c_str(), k);
     continue;
@@ -179,6 +182,15 @@ int main() {
       Manifold plain = defs.back(); gl = plain.GetMeshGL(); gl64 = plain.GetMeshGL64();
       gl.halfedgeTangent.clear(); gl64.halfedgeTangent.clear();
       BuildDefs(defTxt, ops, defs);
+    }
+    // every def is a live handle; `held` are second handles taken before anything is evaluated (they keep pointing at the op nodes)
+    std::vector<Manifold> held(defs.begin(), defs.end());
+    std::vector<char> isPre(defs.size(), 0);
+    for (const auto& sp : preTxt) {
+      size_t j = size_t(atoi(sp.c_str()));
+      if (j + 1 >= defs.size()) continue;      // never the root
+      isPre[j] = 1;
+      if (!sp.empty() && sp.back() == 'c') { Manifold c = defs[j]; (void)c.Status(); } else (void)defs[j].Status();
     }
     ExecutionContext ctx;
     VerifCancelController& vc = VerifCancel();
@@ -217,6 +229,24 @@ int main() {
            "rb=%d rbh=%016llx rbdone=%d rbtotal=%d ops=%d nv=%zu nt=%zu\n",
            id.c_str(), k, N, st, empty, (unsigned long long)h, ctxc, done, total, requery, again_st, (unsigned long long)again_h,
            root_st, other_st, otherfm_st, rb_st, (unsigned long long)rb_h, rb_done, rb_total, opsSame, res.NumVert(), res.NumTri());
+    // every other live handle: status, triangles, export hash (pre-evaluated ones must be unchanged); rebuild from each pre-evaluated one
+    {
+      std::string hl = "H " + id + " " + std::to_string(k);
+      for (size_t j = 0; j + 1 < held.size(); ++j) {
+        char buf[128];
+        if (isPre[j]) {
+          ExecutionContext fr2;
+          Manifold rb2 = held[j] + Manifold::Cube(vec3(1), true).Translate(vec3(50, 0, 0));
+          const int rst = static_cast<int>(rb2.WithContext(fr2).Status());
+          snprintf(buf, sizeof buf, " %zu:1:%d:%016llx", j, rst, (unsigned long long)HashOf(rb2));
+          hl += buf;
+        }
+        const int hst = static_cast<int>(held[j].Status());
+        snprintf(buf, sizeof buf, " %zu:0:%d:%zu:%016llx", j, hst, held[j].NumTri(), (unsigned long long)HashOf(held[j]));
+        hl += buf;
+      }
+      puts(hl.c_str());
+    }
     // site word and progress word, run-length coded; in check order (threads may report out of order)
     std::stable_sort(g_log.begin(), g_log.end(), [](const Ev& a, const Ev& b) { return a.seq < b.seq; });
     {
